@@ -57,6 +57,8 @@ class Sched(object):
         self.current = None
         self.running = False
         self.steps = 0                  # scheduling decisions with a real choice
+        self.decisions = 0              # all scheduling decisions (also forced ones)
+        self.hold_choices = (0, 3, 12, 50, 200)
         self.switches = 0               # actual context switches
         self.seq = 0                    # global event sequence number
         self.max_steps = max_steps
@@ -108,6 +110,7 @@ class Sched(object):
         th._sim_trace = trace
         th._sim_name = name or ('t%d' % th._sim_tid)
         th._sim_exc = None
+        th._sim_hold = 0
         self.threads.append(th)
         if self.policy == 'pct':
             self.prio[th._sim_tid] = 1000 + self.tape.draw(1000, 'prio')
@@ -155,12 +158,19 @@ class Sched(object):
     def _runnable(self):
         now = self.now
         out = []
+        held = []
         for t in self.threads:
             st = t._sim_state
-            if st == 'ready':
-                out.append(t)
-            elif st == 'wait' and t._sim_waiter.ready(now):
-                out.append(t)
+            if st == 'ready' or (st == 'wait' and t._sim_waiter.ready(now)):
+                if t._sim_hold > self.decisions:
+                    held.append(t)
+                else:
+                    out.append(t)
+        if not out and held:
+            # everybody else is blocked: a pre-empted thread held back may go on
+            for t in held:
+                t._sim_hold = 0
+            return held
         return out
 
     def _pick(self, cur_thread, force_other=False):
@@ -189,6 +199,7 @@ class Sched(object):
             if wt > self.now:
                 self.now = wt
                 self.log('clk', round(wt - self.start_time, 6))
+        self.decisions += 1
         if len(run) == 1:
             return run[0]
         self.steps += 1
@@ -336,6 +347,9 @@ class Sched(object):
         self.log('pre', code.co_name, frame.f_lineno - code.co_firstlineno)
         self.probe('preempt:' + code.co_name)
         self._arm_preempt()
+        # hold the pre-empted thread back for a tape-chosen number of scheduling decisions (PCT-style
+        # priority drop): the others run into the window it left open
+        self.current._sim_hold = self.decisions + self.tape.choice(self.hold_choices, 'hold')
         self.yield_('preempt', force_other=True)
 
     # ------------------------------------------------------------------ diagnostics
